@@ -1,6 +1,49 @@
-"""C20: unit contracts (contracts/*.py) plus the GENPROG obligations that carry this property (generated model loaders)."""
+"""C20: unit contracts (contracts/*.py) plus the GENPROG obligations that carry this property (generated model loaders, dumpers, converters),
+plus a bounded probe with inputs OUTSIDE the data universe D: mappings whose own `__getitem__` has a side effect (collections.defaultdict).
+D deliberately contains only mappings that are read without side effects; on a defaultdict even `data['key']` inserts the key, so what
+adaptix may do at most is never to subscript a key it has not seen.  The probe snapshots the input before and after loading."""
+import itertools
+
+
+def side_effecting_mappings():
+    from collections import defaultdict
+    from dataclasses import dataclass, field
+
+    from adaptix import DebugTrail, Retort
+
+    @dataclass
+    class M:
+        a: int
+        b: int
+        c: int = 5
+        d: list = field(default_factory=list)
+    kinds = {"a": "required", "b": "required", "c": "optional", "d": "optional"}
+    viol, n = [], 0
+    for dt in DebugTrail:
+        loader = Retort(debug_trail=dt).get_loader(M)
+        for present in itertools.chain.from_iterable(itertools.combinations("abcd", k) for k in range(0, 5)):
+            n += 1
+            data = defaultdict(int, {k: ([] if k == "d" else 1) for k in present})
+            before = dict(data)
+            try:
+                loader(data)
+            except Exception:  # noqa: BLE001,S110
+                pass
+            inserted = sorted(set(data) - set(before))
+            changed = sorted(k for k in before if data.get(k) != before[k])
+            if inserted or changed:
+                ik = "+".join(sorted({kinds.get(k, "unknown") for k in inserted})) or "none"
+                viol.append({"unit": "model loader on a defaultdict", "clause": "input-unchanged",
+                             "witness": f"{dt.name}; present={''.join(present) or '-'}; inserted-kinds={ik}",
+                             "w": {"input": f"defaultdict(int, {before!r}) loaded as M(a, b, c=5, d=[]) under {dt.name}"[:300],
+                                   "native_outcome": f"the input became {dict(data)!r}: keys {inserted} were inserted by subscripting"[:300]}})
+    return {"obligations": 0, "discharged": 0, "violations": viol, "solver_time": 0.0,
+            "bounded": [{"unit": "model loader on mappings with a side-effecting __getitem__ (collections.defaultdict; outside D)",
+                         "bound": f"{n} inputs: every subset of 4 keys (2 required, 2 optional) x 3 debug-trail modes"}],
+            "samples": [{"defaultdict_inputs": n, "mutated": len(viol)}],
+            "assumptions": ["D contains only mappings read without side effects; defaultdict is probed separately (bounded)"]}
 
 
 def extra_checks(tier, seed):
     from genprog.check import extra_for_property
-    return [extra_for_property("C20", tier, seed)]
+    return [extra_for_property("C20", tier, seed), side_effecting_mappings()]
